@@ -387,6 +387,82 @@ def run_c13(ctx, spec, out):
         if len(v.samples) < 3:
             v.samples.append({"history": h.steps[:14]})
     out.extra_cov["traces"] = ntraces
+    fallback_traces(ctx, v, rng, schema, out)
+
+
+def fallback_traces(ctx, v, rng, schema, out):
+    """backends with fallback addresses (the model has none): the statements of the property are evaluated on the
+    implementation's own bookkeeping - reported up only after a successful synchronisation and with data, a successful
+    update run leaves it up with a cleared error, and a backend that is reachable through any of its addresses comes up"""
+    n = 12 if ctx["tier"] == "quick" else 150
+    lines, traces = [], []
+    nid = 0
+
+    def add(line):
+        nonlocal nid
+        nid += 1
+        lines.append(dict(line, id=nid))
+        return nid
+
+    for _ in range(n):
+        wb, flags = small_world(rng, schema, {"nhosts": [1, 2]})
+        combo = rng.choice([(["dead"], ["self"]), (["self"], ["dead"]), (["dead", "dead"], ["dead", "self"]), (["dead"], ["dead"]), (["self", "dead"], ["self"])])
+        wb["sources"], wb["fallback"] = list(combo[0]), list(combo[1])
+        reachable = "self" in combo[0] or "self" in combo[1]
+        cfg = {"update_interval": 5, "stale_backend_timeout": rng.choice([30, 60]), "idle_timeout": 100000, "max_parallel_peer_connections": 1, "backend_keepalive": False,
+               "net_timeout": 5, "connect_timeout": 2}
+        add({"op": "clock", "seconds": T0})
+        add({"op": "world", "world": {"config": cfg, "backends": [wb]}})
+        pid = wb["id"]
+        steps = [(add({"op": "init", "peer": pid}), "init")]
+        for _ in range(rng.choice([4, 8])):
+            r = rng.random()
+            if r < 0.6:
+                add({"op": "advance", "seconds": rng.choice([5, 7, 61])})
+                steps.append((add({"op": "tick", "peer": pid}), "tick"))
+            elif r < 0.8:
+                add({"op": "mode", "backend": pid, "mode": rng.choice(["ok", "ok", "refuse", "garbage"])})
+            else:
+                steps.append((add({"op": "query", "text": "GET hosts\nColumns: name peer_key\nOutputFormat: wrapped_json\n\n", "optimize": True}), "query"))
+        # recovery: the backend answers again, every address is tried in turn
+        add({"op": "mode", "backend": pid, "mode": "ok"})
+        for _ in range(8):
+            add({"op": "advance", "seconds": 6})
+            steps.append((add({"op": "tick", "peer": pid}), "tick"))
+        last = add({"op": "state", "peer": pid})
+        traces.append({"world": combo, "reachable": reachable, "steps": steps, "last": last, "first": lines[-1]["id"]})
+    scratch = os.path.join(common.BUILD, "scratch-%d" % os.getpid())
+    impl = common.run_impl(ctx["binary"], lines, scratch, timeout=900)
+    ok = 0
+    for tr in traces:
+        v.stats["evaluated"] += 1
+        case = {"text": "sources %s fallback %s" % (tr["world"][0], tr["world"][1]), "dataset": None, "extra": {"part": "fallback addresses", "lines": [l for l in lines if l["id"] <= tr["last"]][-60:]}}
+        bad = None
+        for cid, what in tr["steps"]:
+            a = impl.get(cid) or {}
+            if a.get("crash"):
+                bad = ("crash", "%s: the implementation crashed: %s" % (what, (a.get("stderr") or "")[-300:]))
+                break
+            st = a.get("state") or {}
+            if not st:
+                continue
+            if st.get("status") == 0 and (not st.get("has_data") or st.get("last_error")):
+                bad = ("property", "%s: the backend is reported up without data or with an error (has_data=%s, last_error=%r)" % (what, st.get("has_data"), st.get("last_error")))
+                break
+            if a.get("ran") and a.get("err") == "" and (st.get("status") != 0 or st.get("last_error") or not st.get("has_data")):
+                bad = ("property", "%s: an update run succeeded, but the backend is not reported up with a cleared error: status=%s last_error=%r" % (what, st.get("status"), st.get("last_error")))
+                break
+        if bad is None:
+            st = (impl.get(tr["last"]) or {}).get("state") or {}
+            if tr["reachable"] and st.get("status") != 0:
+                bad = ("property", "one of the addresses (sources %s, fallback %s) answers, but after eight update intervals the backend is still not up: status=%s last_error=%r" % (tr["world"][0], tr["world"][1], st.get("status"), st.get("last_error")))
+            elif not tr["reachable"] and st.get("status") == 0:
+                bad = ("property", "no address answers, yet the backend is reported up")
+        if bad:
+            v.violations.append((bad[0], case, bad[1]))
+        else:
+            ok += 1
+    out.extra_cov["fallback_traces"] = {"traces": n, "ok": ok}
 
 
 # ---------------------------------------------------------------------------------------------
